@@ -166,6 +166,21 @@ FreeFlight ==
                             /\ v = old[2]
                             /\ u = Add(old[1], Mul(dt, old[2]))
 
+\* link to the unbounded companion apalache/NewmarkAll.tla: after a trapezoidal step from a balanced state the new state
+\* has the closed form (in integers over common denominators) whose identities Apalache proves for ALL integers
+Lcm(x, y) == (x * y) \div Gcd(x, y)
+ClosedFormTrap ==
+  (StepDone /\ par = Trapezoidal /\ old[3] = Neg(Mul(k, old[1]))) =>
+    LET P == dt[1]  Q == dt[2]  kk == k[1]
+        Dd == Lcm(old[1][2], old[2][2])
+        Uu == old[1][1] * (Dd \div old[1][2])
+        Vv == old[2][1] * (Dd \div old[2][2])
+        Mm == 4 * Q * Q + kk * P * P
+        UPn == 4 * Q * Q * Uu + 4 * P * Q * Vv - kk * P * P * Uu
+        VPn == (2 * Q * Vv - kk * P * Uu) * Mm - kk * P * UPn
+    IN /\ u = Norm(UPn, Dd * Mm)
+       /\ v = Norm(VPn, 2 * Q * Dd * Mm)
+
 \* state constraint (32-bit integers): states with larger numbers are neither checked nor extended
 Small == \A q \in {u, v, a, up} : Abs(q[1]) <= MaxMag /\ q[2] <= MaxMag
 
